@@ -12,6 +12,6 @@ Extraction "model.ml"
   Adapters.rstep Adapters.run_ops
   Adapters.std_cursor Adapters.seek_adapter Adapters.cursor_reader
   Adapters.std_buf Adapters.fut_buf Adapters.buf_init Adapters.fwd Adapters.async_input Adapters.fut_view
-  Adapters.chunk_data
+  Adapters.chunk_data Adapters.vcursor_seeker Adapters.seekable_reader
   Async.pending_seeker Async.pending_reader Async.aseek_adapter Async.afut_buf Async.afwd
   Async.drive_all Async.astep Async.run_sched Async.run_sync Async.len_sched_ok.
